@@ -8,14 +8,15 @@ Open Scope N_scope.
 Lemma link_local_zero : link_local 0 = false.
 Proof. reflexivity. Qed.
 
-(* what the property text says a received ARP packet must be answered with: nothing, a frame at once (the
-   probe-reject), or a spoof reply that is decided now and written by RxReply *)
+(* what the property text says a received ARP packet must be answered with: nothing, or a reply (the probe-reject,
+   the spoof reply) that is decided now and written by RxReply; RxNow (a frame written by ProcessPacket before it
+   unlocks) no longer occurs *)
 Inductive rx_act := RxNone | RxNow (f : frame) | RxQueue (f : frame).
 
 Definition rx_answer (c : cfg) (s : state) (p : arp_pkt) : rx_act :=
   if closed s then RxNone
   else if sp_is_probe p
-  then (if sp_reject_cond c (offer_of (psmac p) (offers s)) p then RxNow (probe_reject c p) else RxNone)
+  then (if sp_reject_cond c (offer_of (psmac p) (offers s)) p then RxQueue (probe_reject c p) else RxNone)
   else (if sp_asks_router c p && hunted s (psmac p) then RxQueue (spoof_reply c p) else RxNone).
 
 Theorem rx_spec : forall c s p,
